@@ -414,26 +414,16 @@ func (r *relay) header(
 	streamEnded bool,
 	priority http2.PriorityParam,
 ) error {
-	encoded, err := r.encodeFull(headers)
-	if err != nil {
-		return fmt.Errorf("encoding headers %v: %w", headers, err)
-	}
-
-	maxPayloadLength := atomic.LoadUint32(&r.maxFrameSize)
-	// Padding is not implemented because the extra security is not needed for a development proxy.
-	// If it were used, a single padding length octet should be deducted from the max header fragment
-	// length.
-	maxHeaderFragmentLength := maxPayloadLength
-	if !priority.IsZero() {
-		maxHeaderFragmentLength -= headersPriorityMetadataLength
-	}
-	chunks := splitIntoChunks(int(maxHeaderFragmentLength), int(maxPayloadLength), encoded)
-
+	// The header block is HPACK-encoded when the frame is written (see queuedHeaderFrame.send), not
+	// here: the frame may wait in its stream's queue behind flow-controlled DATA while header blocks
+	// of other streams overtake it, and the receiver can only decode blocks in the order in which
+	// they were encoded.
 	r.enqueueFrame(&queuedHeaderFrame{
 		streamID:  id,
 		endStream: streamEnded,
 		priority:  priority,
-		chunks:    chunks,
+		headers:   headers,
+		encode:    r.encodeChunks,
 	})
 	return nil
 }
@@ -453,21 +443,31 @@ func (r *relay) rstStream(id uint32, errCode http2.ErrCode) {
 }
 
 func (r *relay) pushPromise(id, promiseID uint32, headers []hpack.HeaderField) error {
-	encoded, err := r.encodeFull(headers)
-	if err != nil {
-		return fmt.Errorf("encoding push promise headers %v: %w", headers, err)
-	}
-
-	maxPayloadLength := atomic.LoadUint32(&r.maxFrameSize)
-	maxHeaderFragmentLength := maxPayloadLength - pushPromiseMetadataLength
-	chunks := splitIntoChunks(int(maxHeaderFragmentLength), int(maxPayloadLength), encoded)
-
+	// Encoded when written, see header.
 	r.enqueueFrame(&queuedPushPromiseFrame{
 		streamID:  id,
 		promiseID: promiseID,
-		chunks:    chunks,
+		headers:   headers,
+		encode:    r.encodeChunks,
 	})
 	return nil
+}
+
+// encodeChunks HPACK-encodes headers and splits the block into chunks that respect the peer's
+// current maximum frame size; the first frame carries firstFrameOverhead bytes besides its chunk.
+// It must be called in the order in which the header blocks are written to the connection, i.e.
+// from the send method of a queued frame.
+func (r *relay) encodeChunks(headers []hpack.HeaderField, firstFrameOverhead uint32) ([][]byte, error) {
+	encoded, err := r.encodeFull(headers)
+	if err != nil {
+		return nil, fmt.Errorf("encoding headers %v: %w", headers, err)
+	}
+	maxPayloadLength := atomic.LoadUint32(&r.maxFrameSize)
+	// Padding is not implemented because the extra security is not needed for a development proxy.
+	// If it were used, a single padding length octet should be deducted from the max header fragment
+	// length.
+	maxHeaderFragmentLength := maxPayloadLength - firstFrameOverhead
+	return splitIntoChunks(int(maxHeaderFragmentLength), int(maxPayloadLength), encoded), nil
 }
 
 func (r *relay) enqueueFrame(f queuedFrame) {
